@@ -81,8 +81,9 @@ def esc_make_extra(ctx, table):
                    "argument is cut in two".format(o.new))
     # syntax_string branch of Writer.write honours the embedded syntax
     W = F.fn(E.MAKE_SYN + ':Writer.write')
-    nested = [e for e in F.effects(W, lambda e: e.name == 'write', depth=0)
-              if has_call(e.recv(), 'Writer') and has(e.arg(0), 'data')]
+    nested = [e for e in F.effects(W, lambda e: e.name == 'write', depth=1)
+              if e.fn.cls is W.cls and has_call(e.recv(), 'Writer') and
+              has(e.arg(0), 'data')]
     ok = bool(nested) and all(
         has(e.arg(1), 'thing.syntax') or has(e.arg(1), 'syntax')
         for e in nested) and all(
